@@ -189,12 +189,22 @@ class PSFModelMachine(Machine):
         if r < 0.30:
             return self._gen_set(rng, st, k)
         if r < 0.80:
-            return {'op': 'eval', 'actor': k,
-                    'grid': rng.pick(['int', 'frac', 'knot', 'knot',
-                                      'outside', 'line', 'scalar',
-                                      'broadcast', 'border']),
-                    'n': rng.randint(2, 6),
-                    'jit': [rng.uniform(-0.5, 0.5), rng.uniform(-0.5, 0.5)]}
+            op = {'op': 'eval', 'actor': k,
+                  'grid': rng.pick(['int', 'frac', 'knot', 'knot',
+                                    'outside', 'line', 'scalar',
+                                    'broadcast', 'border']),
+                  'n': rng.randint(2, 6),
+                  'jit': [rng.uniform(-0.5, 0.5), rng.uniform(-0.5, 0.5)]}
+            if rng.chance(0.15):
+                # the way fitters use a model: evaluate(x, y, *trial_params)
+                # with parameters that differ from the stored ones
+                tp = self._gen_set(rng, st, k)
+                v = tp['value'] if tp['name'] == 'xy' else None
+                op['direct'] = {
+                    'flux': rng.pick([1.0, 3.5]),
+                    'x_0': v[0] if v else rng.uniform(-3, 20),
+                    'y_0': v[1] if v else rng.uniform(-3, 20)}
+            return op
         if r < 0.88 and len(st.actors) < 5:
             return {'op': rng.pick(['copy', 'copy', 'deepcopy']), 'actor': k}
         if r < 0.94:
@@ -443,8 +453,26 @@ class PSFModelMachine(Machine):
             return
         if kind != 'eval':
             raise Inapplicable(kind)
-        x, y = self._coords(st, a, op)
-        val = call(m, x, y)
+        direct = op.get('direct')
+        if direct:
+            # temporary reference actor carrying the trial parameters; the
+            # model's stored parameters stay what they are
+            import copy as _c
+            stored = a
+            a = _c.copy(a)
+            a.p = dict(direct)
+            x, y = self._coords(st, a, op)
+            # fitters hand evaluate() arrays (Model.__call__ converts
+            # scalars to size-1 arrays before calling it)
+            x = np.atleast_1d(np.asarray(x, dtype=float))
+            y = np.atleast_1d(np.asarray(y, dtype=float))
+            x, y = np.broadcast_arrays(x, y)
+            val = call(m.evaluate, x, y, direct['flux'], direct['x_0'],
+                       direct['y_0'])
+            st.stats.probe('evaluate_with_trial_parameters')
+        else:
+            x, y = self._coords(st, a, op)
+            val = call(m, x, y)
         st.trace.add('eval', digest(val))
         if isinstance(val, Raised):
             raise Violation('raises', 'evaluate',
@@ -464,6 +492,8 @@ class PSFModelMachine(Machine):
         # fresh-model equivalence (exact): same code, same numbers
         fresh = self._build(st, a.p, a.a)
         fv = call(fresh, x, y)
+        if direct:
+            a = stored
         d = diff(val, fv)
         if d:
             raise Violation('history', 'evaluate',
